@@ -175,3 +175,25 @@ fn frame_stack_new() {
     assert!(fs.verif_frames_len() == if d { Some(0) } else { None }, "C27.frames: frames are recorded only with debug_frames, and none initially");
     std::mem::forget(fs);
 }
+
+// NOT REGISTERED (out of memory, > 20 GB after 140 s).
+// C29 (the precondition "without unresolved externals"): an object file that still has an external symbol is rejected
+// and nothing is loaded; BOUNDED: no blocks, one label "A" whose external flag is symbolic.
+#[kani::proof]
+#[kani::stub(std::hash::RandomState::new, stub_random_state)]
+#[kani::stub(mem::MemArray::copy_obj_block, contract_copy_obj_block)]
+#[kani::unwind(9)]
+fn load_rejects_unresolved_external() {
+    let (mut sim, sc, probe, w) = loaded_machine();
+    let external: bool = kani::any();
+    let obj = crate::asm::verif_kani_obj::verif_obj_label_only(kani::any(), external);
+    let r = sim.load_obj_file(&obj);
+    match &r {
+        Ok(()) => assert!(!external, "C29.external: an object file with an unresolved external symbol is not loaded"),
+        Err(SimErr::UnresolvedExternal(name)) => assert!(external && name.as_str() == "A", "C29.external: the rejection names the unresolved symbol"),
+        Err(_) => assert!(false, "C29.external: loading fails only for unresolved externals"),
+    }
+    assert!(unsafe { COPIES } == 0, "C29.load: nothing is placed for a file without blocks / a rejected file");
+    assert!(verif_kani::scalars(&sim) == sc && sim.mem[probe] == w, "C29.load: registers, PC, PSR and memory unchanged");
+    std::mem::forget(sim); std::mem::forget(obj); std::mem::forget(r);
+}
